@@ -49,9 +49,16 @@ class Mod:
 
 
 def imported(m: Mod, only):
+    """only: None (whole module), a dict local -> remote (ONLY list), or ("ren", dict): the whole module with some
+    entities renamed (the original names are then not accessible)"""
     exp = m.exported()
     if only is None:
         return exp
+    if isinstance(only, tuple):
+        ren = only[1]
+        out = {n: d for n, d in exp.items() if n not in ren.values()}
+        out.update({loc: exp[rem] for loc, rem in ren.items() if rem in exp})
+        return out
     return {loc: exp[rem] for loc, rem in only.items() if rem in exp}
 
 
@@ -65,6 +72,11 @@ class Gen:
     def nm(self, pre):
         self.uid += 1
         return f"{pre}{self.uid}"
+
+    def cs(self, name):
+        """the same Fortran name in another spelling"""
+        c = self.r.random()
+        return name.upper() if c < 0.2 else (name.capitalize() if c < 0.3 else name)
 
     def module(self, idx):
         r = self.r
@@ -85,7 +97,7 @@ class Gen:
             imp = sorted(m.visible())
             if imp and r.random() < 0.6:
                 m.public_imports = set(r.sample(imp, r.randint(1, min(2, len(imp)))))
-                L.append("  public :: " + ", ".join(sorted(m.public_imports)))
+                L.append("  public :: " + ", ".join(self.cs(n) for n in sorted(m.public_imports)))
         elif r.random() < 0.3:
             L.append("  public")
 
@@ -101,6 +113,13 @@ class Gen:
         # variables
         for _ in range(r.randint(1, 3)):
             n = self.nm("v")
+            if r.random() < 0.3:
+                # accessibility given by a separate statement, in another spelling of the name
+                pub = r.random() < 0.5
+                L.append(f"  integer :: {self.cs(n)}")
+                m.decls[n] = Decl(n, m.file, len(L) - 1, "var", pub)
+                L.append(f"  {'public' if pub else 'private'} :: {self.cs(n)}")
+                continue
             a, pub = vis_attr()
             L.append(f"  integer{a} :: {n}")
             m.decls[n] = Decl(n, m.file, len(L) - 1, "var", pub)
@@ -113,6 +132,9 @@ class Gen:
         for u, only in m.uses + ([(m.proc_use[0], m.proc_use[2])] if m.proc_use else []):
             if u.default_private and only is None:
                 behind |= {n for n, d in u.visible().items() if d.kind == "var" and n not in u.decls}
+            if isinstance(only, tuple):
+                # renamed away: the original name is free again in this scope
+                behind |= {rem for rem in only[1].values() if u.exported()[rem].kind == "var"}
         behind -= set(m.visible())
         if m.proc_use:
             behind -= set(imported(m.proc_use[0], m.proc_use[2]))
@@ -155,7 +177,7 @@ class Gen:
         ppub = not m.default_private
         if r.random() < 0.5:
             ppub = r.random() < 0.6
-            L.append(f"  {'public' if ppub else 'private'} :: {pname}")
+            L.append(f"  {'public' if ppub else 'private'} :: {self.cs(pname)}")
         L.append("contains")
         L.append(f"  subroutine {pname}(arg)")
         m.decls[pname] = Decl(pname, m.file, len(L) - 1, "proc", ppub)
@@ -223,6 +245,10 @@ class Gen:
                     only[n] = n
                     parts.append(n)
             return f"use {u.name}, only: {', '.join(parts)}", only
+        ren_ok = sorted(n for n in names if exp[n].kind != "type")
+        if ren_ok and r.random() < 0.3:
+            ren = {self.nm("rn"): n for n in r.sample(ren_ok, r.randint(1, min(2, len(ren_ok))))}
+            return f"use {u.name}, " + ", ".join(f"{loc} => {rem}" for loc, rem in ren.items()), ("ren", ren)
         return f"use {u.name}", None
 
     def type_members_of(self, tdecl):
@@ -235,12 +261,12 @@ class Gen:
         forced = [n for n in getattr(m, "clash", []) if n in scope]
         for n in forced + [x for x in r.sample(names, min(len(names), 3)) if x not in forced]:
             d = scope[n]
-            L.append(f"{pad}{n} = 1")
+            L.append(f"{pad}{self.cs(n)} = 1")
             self.sites.append((m.file, len(L) - 1, indent + 1, (d.file, d.line), "variable"))
         procs = sorted(n for n, d in scope.items() if d.kind == "proc")
         for n in r.sample(procs, min(len(procs), 2)):
             d = scope[n]
-            L.append(f"{pad}call {n}(1)")
+            L.append(f"{pad}call {self.cs(n)}(1)")
             self.sites.append((m.file, len(L) - 1, indent + 6, (d.file, d.line), "procedure"))
         if obj is not None:
             on, td = obj
@@ -300,17 +326,22 @@ def check_program(files, sites, mode=0):
         ws.close()
 
 
+# generator seeds (with their open mode) that exposed defects of the pinned tree; always run first
+REGRESSION = [(24, 0), (551, 2), (8135, 0), (23963, 1)]
+
+
 def run(tier: str, seed: int):
     n = sites_n = 0
-    for k in range(600 if tier == "thorough" else 120):
-        g = Gen(random.Random(seed * 7919 + k))
+    plan = list(REGRESSION) + [(seed * 7919 + k, (0, 2, 1, 2)[k % 4]) for k in range(600 if tier == "thorough" else 120)]
+    for gs, mode in plan:
+        g = Gen(random.Random(gs))
         files, sites = g.generate()
         n += 1
         sites_n += len(sites)
-        w = check_program(files, sites, mode=(0, 2, 1, 2)[k % 4])
+        w = check_program(files, sites, mode=mode)
         if w:
             w["files"] = files
-            w["open_mode"] = ["in USE order", "in reverse order", "not opened"][(0, 2, 1, 2)[k % 4]]
-            w["generator_seed"] = seed * 7919 + k
+            w["open_mode"] = ["in USE order", "in reverse order", "not opened"][mode]
+            w["generator_seed"] = gs
             return w, n, sites_n
     return None, n, sites_n
